@@ -94,11 +94,16 @@ def _us(t):
     return UnitsSystem(space=t[0], time=t[1], quantity=t[2])
 
 
-def build_system(grid, env, chem, nspecies, u):
-    """The fine system of a case and its reference description (SI)."""
+def build_system(grid, env, chem, nspecies, u, var=None):
+    """The fine system of a case and its reference description (SI).  var (history family) may override the
+    cell volume ("vol", "vol_units") and shift the window of primes used as state ("shift")."""
     w, h, d = grid
     n = w * h * d
     cfg = UNITS[u]
+    shift = 0
+    if var is not None:
+        cfg = dict(cfg, vol=var["vol"], vol_units=tuple(var["vol_units"]))
+        shift = int(var.get("shift", 0))
     species = [Species("A", D={"a": "2 µm2/s", "b": "3 µm2/s", "c": "0.5 µm2/s"}, units_system=_us(cfg["net"]))]
     reactions = []
     if nspecies >= 2:
@@ -108,7 +113,7 @@ def build_system(grid, env, chem, nspecies, u):
     net = RDNetwork(species=species, reactions=reactions, environments=["a", "b", "c"],
                     units_system=_us(cfg["net"]))
     space = RDGridSpace(w=w, h=h, d=d, cell_env=list(env), cell_vol=cfg["vol"], units_system=_us(cfg["space"]))
-    vals = PRIMES[:nspecies * n]
+    vals = PRIMES[shift:shift + nspecies * n]
     state = list(vals) if cfg["state_units"] is None else UnitArray(list(vals), cfg["state_units"])
     system = RDSystem(net, space, state=state, chemostats=list(chem), units_system=_us(cfg["sys"]))
     vnum = float(str(cfg["vol"]).split()[0])
@@ -601,7 +606,415 @@ def _eval_ident(case, cache):
     return out, info
 
 
-_EVAL = {"cg": _eval_static, "unc": _eval_unc, "simcg": _eval_simcg, "ident": _eval_ident}
+
+# ---- process histories: several coarse-grainings one after the other in ONE process ---------------------------
+
+MOD = __name__
+
+# system variants of one grid layout (w, h, d): other cell volume / unit systems / environment map / state
+HIST_VARIANTS = [
+    {"units": 0, "vol": 8, "vol_units": ("µm", "s", "molecule"), "env": "uniform", "shift": 0},
+    {"units": 0, "vol": 27, "vol_units": ("µm", "s", "molecule"), "env": "two", "shift": 5},
+    {"units": 1, "vol": 8e9, "vol_units": ("nm", "ms", "mol"), "env": "three", "shift": 0},     # = 8 µm3, other unit
+    {"units": 1, "vol": 1e9, "vol_units": ("nm", "ms", "mol"), "env": "uniform", "shift": 11},
+    {"units": 2, "vol": "64 µm3", "vol_units": ("µm", "s", "molecule"), "env": "uniform", "shift": 3},
+    {"units": 2, "vol": "8 µm3", "vol_units": ("µm", "s", "molecule"), "env": "two", "shift": 0},
+    {"units": 1, "vol": 8, "vol_units": ("nm", "ms", "mol"), "env": "uniform", "shift": 2},      # same number as variant 0
+]
+HIST_FUNCS = ("coarsegrain_system", "coarsegrain_grid", "grid_to_graph")
+
+
+def hist_maps(n):
+    """Index maps used by the history family: identity, two halves (several shared faces), halves with the first
+    cell dropped (relabelled so that 0..max are all present)."""
+    ident = list(range(n))
+    halves = [(2 * i) // n for i in range(n)]
+    drop = [-1] + halves[1:]
+    lab = []
+    for g in drop:
+        if g >= 0 and g not in lab:
+            lab.append(g)
+    drop = [g if g < 0 else lab.index(g) for g in drop]
+    out = [ident]
+    for m in (halves, drop):
+        if m not in out and max(m) >= 0:
+            out.append(m)
+    return out
+
+
+def _hist_system(case, v):
+    var = HIST_VARIANTS[v]
+    w, h, d = case["grid"]
+    n = w * h * d
+    env = env_map(var["env"], n)
+    return build_system(case["grid"], env, chem_rich(2, n), 2, var["units"], var), env
+
+
+def _summarize(fn, obj):
+    """Plain (picklable) SI description of a library result."""
+    site = "history:" + fn
+    space = obj if fn != "coarsegrain_system" else obj.space
+    out = {"nodes": [(_si_value(nd.volume, (3, 0, 0), site, "node-volume"), int(nd.environment)) for nd in space.nodes],
+           "edges": [(int(e.i), int(e.j), _si_value(e.surface, (2, 0, 0), site, "edge-surface"),
+                      _si_value(e.distance, (1, 0, 0), site, "edge-distance")) for e in space.edges]}
+    if fn == "coarsegrain_system":
+        out["state"] = _si_array(obj.state, (0, 0, 1), site, "state")
+        out["chem"] = [int(x) for x in obj.chemostats]
+    return out
+
+
+def _hist_child(case):
+    """Runs in a pristine process: the steps of the history one after the other; returns their summaries."""
+    import strengths.coarsegrain as lib
+    res = []
+    for v in case["steps"]:
+        (system, ref), env = _hist_system(case, v)
+        fn = case["fn"]
+        try:
+            if fn == "coarsegrain_system":
+                obj = lib.coarsegrain_system(system, list(case["map"]))
+            elif fn == "coarsegrain_grid":
+                obj = lib.coarsegrain_grid(system.space, list(case["map"]))
+            else:
+                obj = lib.grid_to_graph(system.space)
+        except Exception as e:
+            res.append({"exc": "%s: %s" % (type(e).__name__, e)})
+            continue
+        try:
+            res.append(_summarize(fn, obj))
+        except _Bad as b:
+            res.append({"bad": (b.key, b.what)})
+        except Exception as e:
+            res.append({"bad": ("C16:history:%s:unexpected-exception" % fn, "reading the result: %s: %s"
+                                % (type(e).__name__, e))})
+    return res
+
+
+def _compare_summary(sm, R, S, fn, tag, dscale, out):
+    """Summary of a library result against the reference coarse graph R (SI).  Returns #comparisons."""
+    pre = "C16:history:%s:" % fn
+    ev = 0
+    G = R["n_groups"]
+    if len(sm["nodes"]) != G:
+        out.append((pre + "node-count", "%s: %d nodes, expected %d" % (tag, len(sm["nodes"]), G)))
+        return ev
+    for g in range(G):
+        ev += 2
+        if not _close(sm["nodes"][g][0], R["volume"][g], R["volume"][g]):
+            out.append((pre + "node-volume", "%s: group %d volume %.12g m3, expected %.12g m3"
+                        % (tag, g, sm["nodes"][g][0], R["volume"][g])))
+            break
+        if sm["nodes"][g][1] != R["env"][g]:
+            out.append((pre + "node-environment", "%s: group %d environment %d, expected %d"
+                        % (tag, g, sm["nodes"][g][1], R["env"][g])))
+            break
+    if "state" in sm:
+        if len(sm["state"]) != S * G or len(sm["chem"]) != S * G:
+            out.append((pre + "state-length", "%s: %d state / %d chemostat entries, expected %d"
+                        % (tag, len(sm["state"]), len(sm["chem"]), S * G)))
+        else:
+            for s_ in range(S):
+                for g in range(G):
+                    ev += 2
+                    if not _close(sm["state"][s_ * G + g], R["total"][s_][g], R["total"][s_][g]):
+                        out.append((pre + "group-state", "%s: species %d group %d holds %.12g, members total %.12g"
+                                    % (tag, s_, g, sm["state"][s_ * G + g], R["total"][s_][g])))
+                        return ev
+                    if bool(sm["chem"][s_ * G + g]) != bool(R["flag"][s_][g]):
+                        out.append((pre + "chemostat", "%s: species %d group %d flag %d, expected %d"
+                                    % (tag, s_, g, sm["chem"][s_ * G + g], R["flag"][s_][g])))
+                        return ev
+    seen = {}
+    for (i, j, sf, ds) in sm["edges"]:
+        ev += 1
+        k = (min(i, j), max(i, j))
+        if not (0 <= i < G and 0 <= j < G) or i == j or k in seen:
+            out.append((pre + "edge-structure", "%s: edge (%d,%d) is out of range, a self loop or a duplicate" % (tag, i, j)))
+            return ev
+        seen[k] = (sf, ds)
+    if sorted(seen) != sorted(R["edges"]):
+        out.append((pre + "edge-set", "%s: edges %s, groups sharing a face %s" % (tag, sorted(seen), sorted(R["edges"]))))
+        return ev
+    for k in sorted(seen):
+        ev += 2
+        r = R["edges"][k]
+        if not _close(seen[k][0], r["surface"], r["surface"]):
+            out.append((pre + "edge-surface", "%s: edge %s surface %.12g m2, %d shared face(s) x %.12g m2 = %.12g m2"
+                        % (tag, k, seen[k][0], r["faces"], R["cell_face"], r["surface"])))
+            break
+        if not _close(seen[k][1], r["distance"], dscale):
+            out.append((pre + "edge-distance", "%s: edge %s distance %.12g m, centroids are %.12g m apart"
+                        % (tag, k, seen[k][1], r["distance"])))
+            break
+    return ev
+
+
+def _same_summary(a, b, scale_len):
+    """First field in which two summaries of the same input differ (1e-9 relative), or None."""
+    if ("exc" in a) != ("exc" in b):
+        return "exception"
+    if "exc" in a:
+        return None if a["exc"].split(":")[0] == b["exc"].split(":")[0] else "exception-type"
+    if ("bad" in a) or ("bad" in b):
+        return None if a.get("bad") == b.get("bad") else "dimension"
+    if len(a["nodes"]) != len(b["nodes"]) or len(a["edges"]) != len(b["edges"]):
+        return "structure"
+    for x, y in zip(a["nodes"], b["nodes"]):
+        if not _close(x[0], y[0], abs(y[0])):
+            return "node-volume"
+        if x[1] != y[1]:
+            return "node-environment"
+    for x, y in zip(a["edges"], b["edges"]):
+        if (x[0], x[1]) != (y[0], y[1]):
+            return "edge-order"
+        if not _close(x[2], y[2], abs(y[2])):
+            return "edge-surface"
+        if not _close(x[3], y[3], scale_len):
+            return "edge-distance"
+    if "state" in a:
+        if len(a["state"]) != len(b["state"]) or a["chem"] != b["chem"]:
+            return "state-or-chemostat"
+        for x, y in zip(a["state"], b["state"]):
+            if not _close(x, y, abs(y)):
+                return "state"
+    return None
+
+
+_PRISTINE = None
+
+
+def _pristine():
+    """A zygote forked from this process.  It is only pristine if this process has not coarse-grained anything
+    yet: run() sends the history jobs to fresh workers that do nothing else, replay runs in a fresh process."""
+    global _PRISTINE
+    if _PRISTINE is None:
+        from mc.pristine import Pristine
+        _PRISTINE = Pristine(timeout=60.0)
+    return _PRISTINE
+
+
+def _eval_hist(case, cache):
+    out, info = [], {"transitions": 0, "evaluations": 0, "class": "valid"}
+    fn = case["fn"]
+    w, h, d = case["grid"]
+    n = w * h * d
+    m = list(case["map"]) if fn != "grid_to_graph" else list(range(n))
+    steps = list(case["steps"])
+    P = _pristine()
+    st, res = P.call(MOD, "_hist_child", dict(case))
+    info["transitions"] = len(steps)
+    if st != "ok" or len(res) != len(steps):
+        out.append(("C16:history:%s:worker-%s" % (fn, st), "history %s: %s" % (steps, str(res)[:500])))
+        return out, info
+    if cache is None:
+        cache = {}
+    for k, v in enumerate(steps):
+        var = HIST_VARIANTS[v]
+        env = env_map(var["env"], n)
+        tag = "step %d of history %s (variant %d: cell_vol %r, units configuration %d, environments %s)" % (
+            k + 1, steps, v, var["vol"], var["units"], var["env"])
+        # -- against the reference
+        cls = None if fn == "grid_to_graph" else cg.classify(m, n, env)
+        sm = res[k]
+        info["evaluations"] += 1
+        if "bad" in sm:
+            out.append((sm["bad"][0], tag + ": " + sm["bad"][1]))
+        elif cls is not None:
+            if "exc" not in sm:
+                out.append(("C16:history:%s:invalid-map-accepted:%s" % (fn, cls), "%s: map %s accepted" % (tag, m)))
+            info["invalid_steps"] = info.get("invalid_steps", 0) + 1
+        elif "exc" in sm:
+            out.append(("C16:history:%s:valid-map-rejected:%s" % (fn, sm["exc"].split(":")[0]),
+                        "%s: map %s raised %s" % (tag, m, sm["exc"])))
+        else:
+            vnum = float(str(var["vol"]).split()[0])
+            v_si = vnum * float(si.si_scale(tuple(var["vol_units"]), (3, 0, 0)))
+            cfg = UNITS[var["units"]]
+            qsys = cfg["sys"] if cfg["state_units"] is None else ("m", "s", cfg["state_units"])
+            q_si = float(si.si_scale(qsys, (0, 0, 1)))
+            vals = PRIMES[var["shift"]:var["shift"] + 2 * n]
+            chem = chem_rich(2, n)
+            R = cg.coarse(w, h, d, v_si, env, [[vals[s_ * n + i] * q_si for i in range(n)] for s_ in range(2)],
+                          [[chem[s_ * n + i] for i in range(n)] for s_ in range(2)], m)
+            info["evaluations"] += _compare_summary(sm, R, 2, fn, tag, R["cell_edge"] * (w + h + d), out)
+        # -- against the same input in a pristine process
+        key = (tuple(case["grid"]), fn, tuple(m), v)
+        if key not in cache:
+            st1, r1 = P.call(MOD, "_hist_child", dict(case, steps=[v]))
+            cache[key] = r1[0] if st1 == "ok" and len(r1) == 1 else None
+            info["transitions"] += 1
+        alone = cache[key]
+        if alone is None:
+            out.append(("C16:history:%s:worker-pristine-failed" % fn, tag))
+            continue
+        info["evaluations"] += 1
+        vnum = float(str(var["vol"]).split()[0])
+        edge_si = (vnum * float(si.si_scale(tuple(var["vol_units"]), (3, 0, 0)))) ** (1.0 / 3.0)
+        diff = _same_summary(sm, alone, edge_si * (w + h + d))
+        if diff is not None:
+            out.append(("C16:history:%s:differs-from-pristine:%s" % (fn, diff),
+                        "%s: the result depends on what the process computed before (field %s)" % (tag, diff)))
+    if len(set(steps)) > 1:
+        info["dynamic"] = 1
+    return out, info
+
+
+# ---- the script alphabet through the cgmap path --------------------------------------------------------------
+
+_ENGINES = {}
+
+
+def _engine_of(kind):
+    if kind == "euler":
+        return _engine()
+    if kind not in _ENGINES:
+        from mc import eng
+        import time
+        err = None
+        for attempt in range(4):
+            try:
+                _ENGINES[kind] = eng.make_engine(kind)
+                break
+            except Exception as e:
+                err = e
+                eng._paths.clear()
+                time.sleep(0.5 * (attempt + 1))
+        if kind not in _ENGINES:
+            raise _NoEngine("%s: %s" % (type(err).__name__, err))
+    return _ENGINES[kind]
+
+
+POLICIES = ("on_t_sample", "on_interval", "on_iteration", "no_sampling")
+INTERVALS = (None, 0.25, "500 ms")                      # None = the default (1 in the script's time unit)
+TMAXS = (None, 1.5)                                     # None = "default" (last request)
+REQUESTS = ([0, 0.5, 1.0], [0.3, 0.31, 1.2], [0, 0.0625, 0.125, 0.25, 2.0])
+TIME_STEPS = (0.01, 0.125)
+SCRIPT_UNITS = (("µm", "s", "molecule"), ("nm", "ms", "pmol"), ("mm", "ds", "mol"))
+SCRIPT_MAPS = {(3, 2, 1): [0, 1, 2, 2, -1, 1], (2, 2, 1): [0, 1, 1, -1]}     # valid for the 3- / 2-environment map
+
+
+def _mk_script(case, system, seed=None):
+    kw = {"system": system, "t_sample": list(REQUESTS[case["req"]]), "time_step": TIME_STEPS[case["dt"]],
+          "sampling_policy": case["policy"], "rng_seed": case["seed"] if seed is None else seed,
+          "init_state_processing": case["init"], "units_system": _us(SCRIPT_UNITS[case["sunits"]])}
+    if INTERVALS[case["interval"]] is not None:
+        kw["sampling_interval"] = INTERVALS[case["interval"]]
+    if TMAXS[case["tmax"]] is not None:
+        kw["t_max"] = TMAXS[case["tmax"]]
+    return RDScript(**kw)
+
+
+def _times_equal(ta, tb, scale):
+    return len(ta) == len(tb) and all(_close(x, y, scale) for x, y in zip(ta, tb))
+
+
+def _eval_script(case, cache):
+    out, info = [], {"transitions": 0, "evaluations": 1, "class": "valid"}
+    kind = case["engine"]
+    site = "simulate_script:script:%s" % kind
+    pol = case["policy"]
+    w, h, d = case["grid"]
+    n = w * h * d
+    S = case["nspecies"]
+    m = list(case["map"])
+    ident = m == list(range(n))
+    try:
+        engine = _engine_of(kind)
+    except _NoEngine as e:
+        return [("C16:checker:engine-unavailable", str(e))], info
+    (system, ref), fp, key = _get_system(case, None)
+    if cg.classify(m, n, list(case["env"])) is not None:
+        return [("C16:checker:script-map-invalid", "map %s" % m)], info
+    try:
+        script = _mk_script(case, system)
+        tscale = max(abs(_si_value(script.t_max, (0, 1, 0), site, "t_max")),
+                     _si_value(script.time_step, (0, 1, 0), site, "time_step"))
+        # the coarse run made separately with the library's own pieces (same script, same seed)
+        cgscript = script.copy()
+        cgscript.system = coarsegrain_system(system, list(m))
+        cgout = simulate_script(cgscript, engine)
+        info["transitions"] += 1
+        tc = _si_array(cgout.t, (0, 1, 0), site, "coarse-t")
+        coarse = _si_array(cgout.data, (0, 0, 1), site, "coarse-data")
+    except _Bad as b:
+        return [(b.key, b.what)], info
+    except Exception as e:      # the reference run itself failed: nothing C16 can claim for this script
+        info["reference_failed"] = 1
+        return out, info
+    try:
+        res = simulate_script(_mk_script(case, system), engine, cgmap=list(m))
+        info["transitions"] += 1
+        tr = _si_array(res.t, (0, 1, 0), site, "t")
+        fine = _si_array(res.data, (0, 0, 1), site, "data")
+        info["evaluations"] += 2
+        if len(tr) != len(tc):
+            out.append(("C16:%s:cgmap:sample-count:%s" % (site, pol),
+                        "cgmap run has %d samples, the coarse script run separately has %d (times %s vs %s)"
+                        % (len(tr), len(tc), tr[:6], tc[:6])))
+        elif not _times_equal(tr, tc, tscale):
+            out.append(("C16:%s:cgmap:sample-times:%s" % (site, pol), "cgmap run sampled at %s, coarse run at %s"
+                        % (tr[:8], tc[:8])))
+        else:
+            o2 = []
+            info["evaluations"] += _check_spread(site + ":cgmap", fine, coarse, m, len(tc), S, o2)
+            out.extend((k + ":" + pol, wht) for k, wht in o2)
+            if (res.nsamples(), res.nspecies(), res.ncells()) != (len(tc), S, n):
+                out.append(("C16:%s:cgmap:shape:%s" % (site, pol), "trajectory reports %d x %d x %d, expected %d x %d x %d"
+                            % (res.nsamples(), res.nspecies(), res.ncells(), len(tc), S, n)))
+        G = max(m) + 1
+        if len(tc) >= 2 and any(coarse[(len(tc) - 1) * S * G + k] != coarse[k] for k in range(S * G)):
+            info["dynamic"] = 1
+        info["samples"] = len(tc)
+        if ident:
+            plain = simulate_script(_mk_script(case, system), engine)
+            info["transitions"] += 1
+            tp = _si_array(plain.t, (0, 1, 0), site, "plain-t")
+            a = _si_array(plain.data, (0, 0, 1), site, "plain-data")
+            claim_times = True
+            if kind != "euler":
+                # stochastic engines: the identity-map graph is the grid's graph, but grid and graph runs consume
+                # the random numbers in different orders, so data is not claimed; sample times / count are claimed
+                # only when they do not depend on the draws (same times for another seed of the plain run).
+                plain2 = simulate_script(_mk_script(case, system, seed=case["seed"] + 1), engine)
+                info["transitions"] += 1
+                tp2 = _si_array(plain2.t, (0, 1, 0), site, "plain-t")
+                claim_times = tp2 == tp
+                if not claim_times:
+                    info["times_random"] = 1
+            if claim_times:
+                info["evaluations"] += 2
+                if len(tr) != len(tp):
+                    out.append(("C16:%s:identity:sample-count:%s" % (site, pol),
+                                "identity-map run has %d samples, plain run %d (times %s vs %s)"
+                                % (len(tr), len(tp), tr[:6], tp[:6])))
+                elif not _times_equal(tr, tp, tscale):
+                    out.append(("C16:%s:identity:sample-times:%s" % (site, pol),
+                                "identity-map run sampled at %s, plain run at %s" % (tr[:8], tp[:8])))
+            if len(fine) != len(tr) * S * n:
+                out.append(("C16:%s:identity:shape:%s" % (site, pol), "%d data entries for %d samples x %d x %d"
+                            % (len(fine), len(tr), S, n)))
+            if kind == "euler" and len(tr) == len(tp) and len(a) == len(fine):
+                for k in range(len(tp)):
+                    blk = a[k * S * n:(k + 1) * S * n]
+                    scale = math.fsum(abs(x) for x in blk)
+                    for q in range(S * n):
+                        info["evaluations"] += 1
+                        if not _close(fine[k * S * n + q], blk[q], scale):
+                            out.append(("C16:%s:identity:data:%s" % (site, pol),
+                                        "sample %d species %d cell %d: identity-map run %.15g, plain run %.15g"
+                                        % (k, q // n, q % n, fine[k * S * n + q], blk[q])))
+                            return out, info
+            elif kind == "euler" and len(tr) == len(tp) and len(a) != len(fine):
+                out.append(("C16:%s:identity:shape:%s" % (site, pol), "%d data entries, plain run %d" % (len(fine), len(a))))
+    except _Bad as b:
+        out.append((b.key, b.what))
+    except Exception as e:
+        out.append(("C16:%s:unexpected-exception:%s" % (site, pol), "%s: %s" % (type(e).__name__, e)))
+    return out, info
+
+
+_EVAL = {"cg": _eval_static, "unc": _eval_unc, "simcg": _eval_simcg, "ident": _eval_ident, "hist": _eval_hist,
+         "script": _eval_script}
 
 
 def check_case(case, cache=None):
@@ -637,6 +1050,8 @@ def _sp(name, sub, grid, labels, envs=("uniform", "two", "three"), chems="rich",
 def decode(sp, idx):
     """Case number idx of a sub-space (mixed radix: units, data units, chemostat map, environment map outermost;
     the index map innermost, first label = 0, last = -1 / -2)."""
+    if "cases" in sp:
+        return dict(sp["cases"][idx])
     dims = sp["dims"]
     digs = []
     for b in reversed(dims):
@@ -667,8 +1082,85 @@ def decode(sp, idx):
     return case
 
 
+def _sp_list(name, sub, cases, engine=False):
+    """A sub-space given as an explicit, fixed-order list of cases (history / script families)."""
+    return {"name": name, "sub": sub, "cases": cases, "size": len(cases), "engine": engine}
+
+
+def _hist_spaces(T):
+    import itertools
+    V = list(range(len(HIST_VARIANTS)))
+    if T:
+        grids = [(2, 1, 1), (3, 1, 1), (2, 2, 1), (3, 2, 1), (2, 2, 2)]
+        triples = list(itertools.product(V, repeat=3))
+        tname = "all %d ordered triples of the %d variants" % (len(V) ** 3, len(V))
+    else:
+        grids = [(3, 1, 1), (2, 2, 1), (2, 2, 2)]
+        triples = list(itertools.product((0, 1, 3), repeat=3))
+        tname = "all 27 ordered triples of the variants 0, 1, 3"
+    pairs = list(itertools.product(V, repeat=2))
+    out = []
+    for g in grids:
+        n = g[0] * g[1] * g[2]
+        maps = hist_maps(n)
+        halves = maps[1] if len(maps) > 1 else maps[0]
+        cases = []
+        for steps in pairs:
+            for m in maps:
+                cases.append({"sub": "hist", "grid": list(g), "fn": "coarsegrain_system", "map": m, "steps": list(steps)})
+            cases.append({"sub": "hist", "grid": list(g), "fn": "coarsegrain_grid", "map": halves, "steps": list(steps)})
+            cases.append({"sub": "hist", "grid": list(g), "fn": "grid_to_graph", "map": None, "steps": list(steps)})
+        for steps in triples:
+            cases.append({"sub": "hist", "grid": list(g), "fn": "coarsegrain_system", "map": halves, "steps": list(steps)})
+            if T:
+                cases.append({"sub": "hist", "grid": list(g), "fn": "coarsegrain_system", "map": maps[0], "steps": list(steps)})
+            cases.append({"sub": "hist", "grid": list(g), "fn": "grid_to_graph", "map": None, "steps": list(steps)})
+        out.append(_sp_list("hist %dx%dx%d: process histories in one pristine process -- all %d ordered pairs of %d system "
+                            "variants (cell volume / unit systems / environment map / state) x {coarsegrain_system x %d maps, "
+                            "coarsegrain_grid, grid_to_graph}; %s x {coarsegrain_system%s, grid_to_graph}"
+                            % (g + (len(pairs), len(V), len(maps), tname, " x 2 maps" if T else "")), "hist", cases))
+    return out
+
+
+def _script_spaces(T):
+    import itertools
+    out = []
+    grids = [((3, 2, 1), "three")] + ([((2, 2, 1), "two")] if T else [])
+    for g, envname in grids:
+        n = g[0] * g[1] * g[2]
+        env = env_map(envname, n)
+        base = {"sub": "script", "grid": list(g), "env": env, "chem": chem_rich(2, n), "nspecies": 2, "units": 0,
+                "seed": 1234}
+        maps = [list(range(n)), SCRIPT_MAPS[g]]
+        reqs = (0, 1, 2) if T else (0, 1)
+        cases = []
+        for su, pol, iv, tm, rq, dt, ini in itertools.product(range(3), POLICIES, range(3), range(2), reqs, range(2),
+                                                              ("auto", "none")):
+            for mi, m in enumerate(maps):
+                if mi == 1 and su != 0 and not T:
+                    continue
+                cases.append(dict(base, engine="euler", sunits=su, policy=pol, interval=iv, tmax=tm, req=rq, dt=dt,
+                                  init=ini, map=m))
+        out.append(_sp_list("script %dx%dx%d euler: 3 script unit systems x 4 sampling policies x 3 intervals x 2 t_max x %d "
+                            "request lists x 2 time steps x init {auto, none} x {identity map%s}"
+                            % (g + (len(reqs), ", non-trivial map" if T else "; non-trivial map for the default script units")),
+                            "script", cases, engine=True))
+        sus = (0, 1, 2) if T else (0, 1)
+        cases = []
+        for kind, su, pol, iv, tm, ini in itertools.product(("tauleap", "gillespie"), sus, POLICIES, range(3), range(2),
+                                                            ("auto", "Poisson")):
+            for m in maps:
+                cases.append(dict(base, engine=kind, sunits=su, policy=pol, interval=iv, tmax=tm, req=0, dt=0,
+                                  init=ini, map=m))
+        out.append(_sp_list("script %dx%dx%d tauleap + gillespie (seed 1234): %d script unit systems x 4 sampling policies x "
+                            "3 intervals x 2 t_max x init {auto, Poisson} x {identity, non-trivial map}" % (g + (len(sus),)),
+                            "script", cases, engine=True))
+    return out
+
+
 def _spaces(tier):
     T = tier == "thorough"
+    E3N = ("uniform", "two", "three")
     sp = []
     # -- static: every map of {-1..m}^n ----------------------------------------------------------------------
     for n in (1, 2, 3, 4):
@@ -680,22 +1172,25 @@ def _spaces(tier):
                       envs=("uniform", "three")))
         sp.append(_sp("cg 1-D 6 cells: all maps {-1..5}^6, 2-environment map", "cg", (6, 1, 1), _labels(5),
                       envs=("two",)))
-    else:
-        sp.append(_sp("cg 1-D 5 cells: all maps {-1..3}^5 x 3 environment maps", "cg", (5, 1, 1), _labels(3)))
-        sp.append(_sp("cg 1-D 6 cells: all maps {-1..2}^6 x 3 environment maps", "cg", (6, 1, 1), _labels(2)))
-    sp.append(_sp("cg 2-D 2x2: all maps {-1..3}^4 x 3 environment maps", "cg", (2, 2, 1), _labels(3)))
-    sp.append(_sp("cg 2-D 3x2: all maps {-1..2}^6 x 3 environment maps", "cg", (3, 2, 1), _labels(2)))
-    sp.append(_sp("cg 2-D 2x3: all maps {-1..2}^6, 3-environment map", "cg", (2, 3, 1), _labels(2), envs=("three",)))
-    if T:
+        sp.append(_sp("cg 2-D 2x2: all maps {-1..3}^4 x 3 environment maps", "cg", (2, 2, 1), _labels(3)))
+        sp.append(_sp("cg 2-D 3x2: all maps {-1..2}^6 x 3 environment maps", "cg", (3, 2, 1), _labels(2)))
+        sp.append(_sp("cg 2-D 2x3: all maps {-1..2}^6, 3-environment map", "cg", (2, 3, 1), _labels(2), envs=("three",)))
         sp.append(_sp("cg 2-D 3x3: all maps {-1,0,1}^9 x 3 environment maps", "cg", (3, 3, 1), _labels(1)))
         sp.append(_sp("cg 2-D 3x3: all maps {-1..2}^9, 2-environment map", "cg", (3, 3, 1), _labels(2),
                       envs=("two",)))
         sp.append(_sp("cg 3-D 2x2x2: all maps {-1..2}^8 x 3 environment maps", "cg", (2, 2, 2), _labels(2)))
     else:
-        sp.append(_sp("cg 2-D 3x3: all maps {-1,0,1}^9, 2-environment map", "cg", (3, 3, 1), _labels(1),
-                      envs=("two",)))
-        sp.append(_sp("cg 3-D 2x2x2: all maps {-1,0,1}^8 x {uniform, 3 environments}", "cg", (2, 2, 2), _labels(1),
-                      envs=("uniform", "three")))
+        sp.append(_sp("cg 1-D 5 cells: all maps {-1..2}^5 x 3 environment maps", "cg", (5, 1, 1), _labels(2)))
+        sp.append(_sp("cg 1-D 6 cells: all maps {-1,0,1}^6 x 3 environment maps", "cg", (6, 1, 1), _labels(1)))
+        sp.append(_sp("cg 2-D 2x2: all maps {-1..3}^4 x 3 environment maps", "cg", (2, 2, 1), _labels(3)))
+        sp.append(_sp("cg 2-D 3x2: all maps {-1,0,1}^6 x 3 environment maps", "cg", (3, 2, 1), _labels(1)))
+        sp.append(_sp("cg 2-D 3x2: all maps {0,1,2}^6, uniform environment", "cg", (3, 2, 1), [0, 1, 2], envs=("uniform",)))
+        sp.append(_sp("cg 2-D 2x3: all maps {-1,0,1}^6, 3-environment map", "cg", (2, 3, 1), _labels(1), envs=("three",)))
+        sp.append(_sp("cg 2-D 3x3: all maps {0,1}^9 x {uniform, 2 environments}", "cg", (3, 3, 1), [0, 1],
+                      envs=("uniform", "two")))
+        sp.append(_sp("cg 3-D 2x2x2: all maps {0,1}^8 x 3 environment maps", "cg", (2, 2, 2), [0, 1]))
+        sp.append(_sp("cg 3-D 2x2x2: all maps {-1,0}^8 x 3 environment maps", "cg", (2, 2, 2), _labels(0)))
+        sp.append(_sp("cg 3-D 2x1x2: all maps {-1..3}^4 x 3 environment maps", "cg", (2, 1, 2), _labels(3)))
     # -- static: invalidity classes outside {-1..m}^n -----------------------------------------------------------
     for g in ((1, 1, 1), (2, 1, 1), (3, 1, 1), (4, 1, 1), (2, 2, 1)):
         n = g[0] * g[1] * g[2]
@@ -720,39 +1215,49 @@ def _spaces(tier):
     # -- static: other unit systems -----------------------------------------------------------------------------
     sp.append(_sp("cg 2-D 2x2: all maps {-1..3}^4 x 3 environment maps x 2 non-default unit configurations",
                   "cg", (2, 2, 1), _labels(3), units=(1, 2)))
-    sp.append(_sp("cg 1-D 4 cells: all maps {-1..3}^4 x 3 environment maps x 2 non-default unit configurations",
-                  "cg", (4, 1, 1), _labels(3), units=(1, 2)))
     if T:
+        sp.append(_sp("cg 1-D 4 cells: all maps {-1..3}^4 x 3 environment maps x 2 non-default unit configurations",
+                      "cg", (4, 1, 1), _labels(3), units=(1, 2)))
         sp.append(_sp("cg 2-D 3x2: all maps {-1..2}^6 x 3 environment maps x 2 non-default unit configurations",
                       "cg", (3, 2, 1), _labels(2), units=(1, 2)))
         sp.append(_sp("cg 3-D 2x2x2: all maps {-1,0,1}^8, 3-environment map x 2 non-default unit configurations",
                       "cg", (2, 2, 2), _labels(1), envs=("three",), units=(1, 2)))
     else:
-        sp.append(_sp("cg 3-D 2x2x2: all maps {-1,0}^8 x 3 environment maps x 2 non-default unit configurations",
-                      "cg", (2, 2, 2), _labels(0), units=(1, 2)))
+        sp.append(_sp("cg 1-D 3 cells: all maps {-1..2}^3 x 3 environment maps x 2 non-default unit configurations",
+                      "cg", (3, 1, 1), _labels(2), units=(1, 2)))
+        sp.append(_sp("cg 3-D 2x2x2: all maps {-1,0}^8, 3-environment map x 2 non-default unit configurations",
+                      "cg", (2, 2, 2), _labels(0), envs=("three",), units=(1, 2)))
     # -- uncoarsegrain_trajectory on hand-built coarse trajectories (valid maps of the enumerated set) ------------
     U2 = ("uniform", "two")
-    unc = [((3, 1, 1), 2, (0, 1), U2), ((4, 1, 1), 3, (0, 1), U2), ((2, 2, 1), 3, (0, 1), U2),
-           ((3, 2, 1), 2, (0, 1), U2), ((2, 2, 2), 1, (0,), U2)]
     if T:
-        unc += [((5, 1, 1), 4, (0, 1), U2), ((3, 3, 1), 1, (0, 1), U2), ((2, 2, 2), 2, (0,), ("two",))]
+        unc = [((3, 1, 1), 2, (0, 1), U2), ((4, 1, 1), 3, (0, 1), U2), ((2, 2, 1), 3, (0, 1), U2),
+               ((3, 2, 1), 2, (0, 1), U2), ((2, 2, 2), 1, (0,), U2),
+               ((5, 1, 1), 4, (0, 1), U2), ((3, 3, 1), 1, (0, 1), U2), ((2, 2, 2), 2, (0,), ("two",))]
+    else:
+        unc = [((3, 1, 1), 2, (0, 1), U2), ((4, 1, 1), 3, (0, 1), U2), ((2, 2, 1), 3, (0, 1), U2),
+               ((3, 2, 1), 1, (0, 1), U2), ((2, 2, 2), 0, (0,), U2)]
     for g, mx, dus, envs in unc:
         n = g[0] * g[1] * g[2]
         sp.append(_sp("unc %dx%dx%d: valid maps among {-1..%d}^%d x environment maps %s x data in {%s}"
                       % (g + (mx, n, "/".join(envs), ", ".join(DATA_UNITS[k] for k in dus))), "unc", g, _labels(mx),
                       envs=envs, data_units=dus))
     # -- simulated coarse trajectories ---------------------------------------------------------------------------
-    E3N = ("uniform", "two", "three")
-    simf = [((3, 1, 1), 2, E3N, "none+rich"), ((2, 2, 1), 3, E3N, "none+rich"), ((3, 2, 1), 1, E3N, "rich")]
     if T:
-        simf += [((4, 1, 1), 3, E3N, "none+rich"), ((3, 2, 1), 2, E3N, "rich"), ((2, 2, 2), 1, ("two",), "rich")]
+        simf = [((3, 1, 1), 2, E3N, "none+rich"), ((2, 2, 1), 3, E3N, "none+rich"), ((3, 2, 1), 1, E3N, "rich"),
+                ((4, 1, 1), 3, E3N, "none+rich"), ((3, 2, 1), 2, E3N, "rich"), ((2, 2, 2), 1, ("two",), "rich")]
+    else:
+        simf = [((3, 1, 1), 2, E3N, "none+rich"), ((2, 2, 1), 3, E3N, "rich"), ((3, 2, 1), 1, ("two",), "rich")]
     for g, mx, envs, chems in simf:
         n = g[0] * g[1] * g[2]
         sp.append(_sp("simcg %dx%dx%d: Euler with cgmap, valid maps among {-1..%d}^%d x environment maps %s x chemostats {%s}"
                       % (g + (mx, n, "/".join(envs), chems)), "simcg", g, _labels(mx), envs=envs, chems=chems,
                       engine=True))
-    sp.append(_sp("simcg 2x2x1: Euler with cgmap, valid maps among {-1..3}^4 x 3 environment maps x 2 non-default unit configurations",
-                  "simcg", (2, 2, 1), _labels(3), units=(1, 2), engine=True))
+    if T:
+        sp.append(_sp("simcg 2x2x1: Euler with cgmap, valid maps among {-1..3}^4 x 3 environment maps x 2 non-default unit configurations",
+                      "simcg", (2, 2, 1), _labels(3), units=(1, 2), engine=True))
+    else:
+        sp.append(_sp("simcg 2x2x1: Euler with cgmap, valid maps among {-1..3}^4, 3-environment map x 2 non-default unit configurations",
+                      "simcg", (2, 2, 1), _labels(3), envs=("three",), units=(1, 2), engine=True))
     # -- identity map ------------------------------------------------------------------------------------------
     grids = [(2, 1, 1), (3, 1, 1), (4, 1, 1), (5, 1, 1), (6, 1, 1), (2, 2, 1), (3, 2, 1), (2, 3, 1), (3, 3, 1),
              (2, 2, 2), (1, 1, 3), (1, 4, 1)]
@@ -766,22 +1271,28 @@ def _spaces(tier):
         else:
             sp.append(_sp("ident %dx%dx%d: identity map vs plain Euler, uniform environment x {no, rich} chemostats x 3 unit configurations"
                           % g, "ident", g, None, envs=("uniform",), chems="none+rich", units=(0, 1, 2), engine=True))
+    # -- process histories, script alphabet ---------------------------------------------------------------------
+    sp += _hist_spaces(T)
+    sp += _script_spaces(T)
     return sp
 
 
 _SPACES = None
-CHUNK = {"cg": 1500, "unc": 1500, "simcg": 400, "ident": 6}
+CHUNK = {"cg": 1500, "unc": 1500, "simcg": 400, "ident": 6, "hist": 12, "script": 16}
 INFO_COUNTS = ("multi_face_edges", "zero_distance_edges", "edges", "noncontiguous", "single_cell_groups",
                "multi_cell_groups", "mixed_flag_groups", "filtered", "filtered_zero_distance", "dynamic",
-               "input_mutated")
+               "input_mutated", "invalid_steps", "times_random", "reference_failed", "samples")
+
+
+_HIST_CACHE = {}      # per worker: summaries of single steps run in a pristine process
 
 
 def _work(job):
     si_, lo, hi = job
     sp = _SPACES[si_]
     acc = core.Acc()
-    cache = {}
     sub = sp["sub"]
+    cache = _HIST_CACHE if sub == "hist" else {}
     nt = 0
     for idx in range(lo, hi):
         case = decode(sp, idx)
@@ -826,14 +1337,18 @@ def run(ctx):
     if any(sp["engine"] for sp in _SPACES):
         try:
             _engine()                   # build + load once in the parent; the forked workers inherit it
+            for kind in ("tauleap", "gillespie"):
+                _engine_of(kind)
         except _NoEngine as e:
             ctx.violation("C16:checker:engine-unavailable", str(e), {"sub": "ident"})
-    jobs = []
+    # phase 1: the process-history family, on fresh workers that do nothing else (their zygotes are pristine: the
+    # parent and these workers never coarse-grain anything in-process); phase 2: everything else.
+    jobs1, jobs2 = [], []
     for i, sp in enumerate(_SPACES):
         for lo, hi in pool.chunks(sp["size"], CHUNK[sp["sub"]]):
-            jobs.append((i, lo, hi))
-    # long jobs first is not needed: chunks are small; keep the fixed order
-    res = pool.pmap(_work, jobs, timeout=600)
+            (jobs1 if sp["sub"] == "hist" else jobs2).append((i, lo, hi))
+    res = pool.pmap(_work, jobs1, timeout=600) + pool.pmap(_work, jobs2, timeout=600)
+    jobs = jobs1 + jobs2
     per = {}
     for job, r in zip(jobs, res):
         if isinstance(r, pool.Crash):
@@ -851,10 +1366,11 @@ def run(ctx):
              "by mc/ref/cg.classify and passed to the real coarsegrain_system / uncoarsegrain_trajectory / "
              "simulate_script; a static case is non-trivial when the map is invalid (rejection exercised) or merges "
              "cells or drops cells; an un-coarse-graining case when the map merges or drops cells; a simulation "
-             "case when the trajectory changes between the first and the last sample; cases are distinct tuples "
-             "of the product")
+             "case when the trajectory changes between the first and the last sample; a process history when it "
+             "contains two different system variants; cases are distinct tuples of the product")
     ctx.assume("reflecting boundaries only (periodic grids are documented as unsupported); index maps are Python "
-               "lists of ints; SI scales of mc/ref/si.py; the Euler engine is deterministic (C08)")
+               "lists of ints; SI scales of mc/ref/si.py; a trajectory is a function of (script, engine kind, seed) (C08): "
+               "the cgmap run is compared with the coarse script simulated separately with the same seed")
     ctx.note("unit_configurations", [u["name"] for u in UNITS])
     ctx.note("environment_maps", {"uniform": "[1]*n", "two": E2, "three": E3})
 
